@@ -106,8 +106,11 @@ def warm_start(
         if var not in wvars:
             n = pcount if var in state.instance_variables else pid_max
             is_time = np.dtype(state.dtypes[var]).kind == "M"
-            missing = np.datetime64("NaT") if is_time else np.nan
-            state.variables[var] = np.full(n, missing)
+            if is_time:  # Not-a-time in the time unit of the variable
+                missing = np.full(n, np.datetime64("NaT"), dtype=state.dtypes[var])
+            else:
+                missing = np.full(n, np.nan)
+            state.variables[var] = missing
 
     f.close()
 
